@@ -136,6 +136,10 @@ class Group3d:
                     for kwk in ('shared', 'list'):
                         for n_jobs in ((1,) if tier == 'quick' and (n0, n1) != (2, 2) else (1, 3)):
                             yield dict(n0=n0, n1=n1, axis=axis, kw=kwk, n_jobs=n_jobs, seed=seed)
+        for layout in ('F', 'T'):
+            for axis in ([0, 1], 0, 1):
+                yield dict(n0=2, n1=2, axis=axis, kw='shared', n_jobs=1, seed=seed, layout=layout)
+            yield dict(n0=2, n1=3, axis=[0, 1], kw='list', n_jobs=1, seed=seed, layout=layout)
         yield dict(n0=3, n1=2, axis=[0, 1], kw='list', n_jobs=2, seed=seed)
         yield dict(n0=2, n1=3, axis=1, kw='list', n_jobs=2, seed=seed)
         yield dict(n0=3, n1=2, axis=0, kw='list', n_jobs=2, seed=seed)
@@ -149,6 +153,12 @@ class Group3d:
         n0, n1 = c['n0'], c['n1']
         axis = tuple(c['axis']) if isinstance(c['axis'], list) else c['axis']
         sigs = np.stack([np.stack([row_signal(i * n1 + j, c['seed']) for j in range(n1)]) for i in range(n0)])
+        # memory layouts with identical values and indexing: C-ordered, Fortran-ordered, transposed view
+        layout = c.get('layout', 'C')
+        if layout == 'F':
+            sigs = np.asfortranarray(sigs)
+        elif layout == 'T':
+            sigs = np.ascontiguousarray(sigs.transpose(2, 1, 0)).transpose(2, 1, 0)
         if c['kw'] == 'shared':
             kws = kwargs_variant(1)
         elif axis == (0, 1):
@@ -182,6 +192,23 @@ class Group3d:
                 d = O.frames_identical(out[i][j], ref)
                 if d:
                     return 'entry [%d][%d] is not %s: %s' % (i, j, what, d)
+        if c['kw'] == 'shared':
+            # BycycleGroup on the same input: models mirror df_features and sigs position by position
+            from bycycle import BycycleGroup
+            kw = copy.deepcopy(kws0)
+            bg = BycycleGroup(center_extrema=kw['center_extrema'], thresholds=kw['threshold_kwargs'],
+                              find_extrema_kwargs=kw['find_extrema_kwargs'])
+            bg.fit(sigs, FS, FR, axis=axis, n_jobs=c['n_jobs'])
+            if len(bg.models) != n0 or any(len(r) != n1 for r in bg.models):
+                return 'BycycleGroup.models is not %dx%d nested' % (n0, n1)
+            for i in range(n0):
+                for j in range(n1):
+                    d = O.frames_identical(bg.df_features[i][j], out[i][j]) or \
+                        O.frames_identical(bg.models[i][j].df_features, out[i][j])
+                    if d:
+                        return 'BycycleGroup position [%d][%d]: %s' % (i, j, d)
+                    if not np.array_equal(bg.models[i][j].sig, sigs[i, j]):
+                        return 'BycycleGroup.models[%d][%d].sig is not sigs[%d, %d]' % (i, j, i, j)
         return None
 
 
